@@ -76,3 +76,12 @@ Proof.
 Qed.
 
 End SpecProofs.
+
+Theorem spec_repairs_ok : forall viol, monotone viol -> forall F, NoDup F -> forall S,
+  (In S (max_repairs_spec viol F) <-> In S (sublists F) /\ maxrepair viol F S) /\
+  (In S (max_repairs_local viol F) <-> In S (sublists F) /\ maxrepair viol F S).
+Proof.
+  intros viol mono F ND S. split.
+  - exact (max_repairs_spec_ok viol mono F S).
+  - exact (max_repairs_local_ok viol mono F S).
+Qed.
